@@ -281,4 +281,32 @@ C14DrawFails(c) ==
               LET h == c.edges[j][1]  u == c.edges[j][2] IN
               h \in helpers => \A B \in DOMAIN cl : u \in SeqSet(cl[B]) => h \in SeqSet(cl[B])>>
      >>)
+(***************************************************************************)
+(* kind "connectwide": ONE right-connection whose interface is wider than   *)
+(* any truth table of the base could be (more than 30 base inputs, every     *)
+(* one of them replaced by a gate of the attached circuit).  c.base, c.other *)
+(* projections before the call, c.pairs = Seq of <<base input, attached     *)
+(* gate>>, c.res the result with c.res_order (witness order, checked).  The  *)
+(* result's inputs are the attached circuit's inputs in their order; every   *)
+(* base gate must compute what it computed before with each replaced input   *)
+(* reading its partner gate.  Linear clauses.                                *)
+(***************************************************************************)
+C10WideFails(c) ==
+  IF c.exc # "" THEN {"documented-composition-raised:" \o c.exc}
+  ELSE LET all == AllRows(Len(c.other.i))
+           ov == EvalChecked(AsFcn(c.other.g), c.other.ord, InputCols(c.other), all)
+           pmap == [j \in DOMAIN c.pairs |-> c.pairs[j][1]]
+           cols == [l \in SeqSet(pmap) |-> ov.v[c.pairs[CHOOSE j \in DOMAIN c.pairs : c.pairs[j][1] = l][2]]]
+           want == EvalChecked(AsFcn(c.base.g), c.base.ord, cols, all)
+           got == EvalChecked(AsFcn(c.res.g), c.res_order, InputCols(c.res), all)
+           bgates == {l \in DOMAIN c.base.g : c.base.g[l].t # "INPUT"}
+       IN IF ~ov.ok \/ ~want.ok \/ SeqSet(c.base.i) # SeqSet(pmap) THEN {}        \* not the shape this kind is for: not decided
+          ELSE FailSet(<<
+            <<"result-wellformed", got.ok /\ SeqSet(c.res.o) \subseteq DOMAIN got.v>>,
+            <<"result-inputs-are-the-attached-circuit-s-inputs", Len(c.res.i) = Len(c.other.i)>>,
+            <<"result-function-is-the-composition",
+                ~got.ok \/ Len(c.res.i) # Len(c.other.i) \/
+                \A l \in bgates : l \in DOMAIN got.v /\ got.v[l] = want.v[l]>>,
+            <<"base-outputs-kept", \A k \in DOMAIN c.base.o : c.base.o[k] \in bgates => c.base.o[k] \in SeqSet(c.res.o)>>
+          >>)
 =============================================================================
